@@ -27,7 +27,23 @@ OBS_INVS = ["NoDupRows", "HeaderFirstOnce", "RowsAreSubjects", "RowsAppendOnly",
 # --------------------------------------------------------------------------------------
 # running histories (in parallel worker processes; each history forks its own sessions)
 # --------------------------------------------------------------------------------------
+JOB_TIMEOUT_S = 420
+JOB_TIMEOUTS: list = []      # jobs whose history (incl. the uncontrolled reference run) never came back
+
+
 def _run_history(job):
+    """one history, bounded in time: the reference run and the sessions execute the real code, which may block
+    forever where no wrapper sees it (SIGALRM in the worker's main thread)"""
+    from .drive import CallTimeout, time_limit
+    try:
+        with time_limit(JOB_TIMEOUT_S):
+            return _run_history_inner(job)
+    except CallTimeout:
+        shutil.rmtree(job[2], ignore_errors=True)
+        return {"job_timeout": True, "tag": job[3], "scn": job[0], "sessions": job[1]}
+
+
+def _run_history_inner(job):
     """job = (scenario args, list of session specs, workdir).  A session spec is
     {"policy": ("random", seed, stick) | ("script", [actors]) | ("seq",), "kill_at": int | None}"""
     scn_args, sessions, workdir, tag = job
@@ -82,10 +98,36 @@ def detect_flags(h: History) -> dict:
 
 
 def run_histories(jobs, workers=14):
+    """run the jobs in worker processes.  A job that does not come back within JOB_TIMEOUT_S is noted in
+    JOB_TIMEOUTS (reported as a Hang by validate_histories); after three of them the remaining jobs are
+    abandoned - the workers' interpreters are presumably wedged by the code under test."""
+    import os
+    import signal
     out = []
-    with cf.ProcessPoolExecutor(max_workers=workers) as ex:
-        for r in ex.map(_run_history, jobs, chunksize=1):
-            out.append(r)
+    ex = cf.ProcessPoolExecutor(max_workers=workers)
+    futs = [ex.submit(_run_history, j) for j in jobs]
+    n_to = 0
+    try:
+        for f in cf.as_completed(futs):
+            r = f.result()
+            if r.get("job_timeout"):
+                JOB_TIMEOUTS.append(r)
+                n_to += 1
+                if n_to >= 3:
+                    break
+            else:
+                out.append(r)
+    finally:
+        for f in futs:
+            f.cancel()
+        procs = list(getattr(ex, "_processes", {}).values())
+        ex.shutdown(wait=n_to < 3, cancel_futures=True)
+        if n_to >= 3:
+            for p_ in procs:
+                try:
+                    os.kill(p_.pid, signal.SIGKILL)
+                except (ProcessLookupError, AttributeError):
+                    pass
     return out
 
 
@@ -94,6 +136,12 @@ def run_histories(jobs, workers=14):
 # --------------------------------------------------------------------------------------
 def validate_histories(v: Verdict, results, prop: str):
     """strict (Trace_Aggregator) and observational (AggObs) validation of recorded histories."""
+    for jt in JOB_TIMEOUTS[:5]:
+        v.violation("Hang", {"scenario": jt["scn"].get("name", ""), "job_timeout": True}, {"kind": "aggregator-history", "scn": jt["scn"], "sessions": jt["sessions"]},
+                    what=f"{jt['tag']} scenario={jt['scn'].get('name')}: the history (uncontrolled reference run included) did not finish within {JOB_TIMEOUT_S} s")
+    del JOB_TIMEOUTS[:]
+    if not results:
+        return
     sdir = common.scratch(prop)
     drift = 0
     try:
@@ -319,6 +367,9 @@ def preemption_schedules(sc, root, limit, rng):
     every position where another thread could have been chosen spawns a new prefix (<= 2 preemptions)."""
     jobs = []
     base = _run_history((sc, [{"policy": ("seq",), "kill_at": None}], str(root / "base"), "dfs-base"))
+    if base.get("job_timeout"):
+        JOB_TIMEOUTS.append(base)
+        return [], []
     sched = base["schedule"]
     ops = base["ops"]
     calls = list(range(1, len(sc["calls"]) + 1))
@@ -347,7 +398,7 @@ def preemption_schedules(sc, root, limit, rng):
     return [base], jobs
 
 
-def stress_uncontrolled(v: Verdict, prop: str, root: Path, rounds: int):
+def stress_uncontrolled(v: Verdict, prop: str, root: Path, rounds: int, modes=("nondaemonic", "future", "threads")):
     """uncontrolled runs through the three ways the repository's example distributes work: forked
     worker processes (NonDaemonicPool, ProcessPoolExecutor) and a thread pool.  Only the final
     files are observed (AggObs with one event)."""
@@ -356,7 +407,7 @@ def stress_uncontrolled(v: Verdict, prop: str, root: Path, rounds: int):
     results = []
     names = [f"s{i}" for i in range(6)] + ["s0", "s3"]           # colliding names included
     for rd in range(rounds):
-        for mode in ("nondaemonic", "future", "threads"):
+        for mode in modes:
             d = root / f"stress{rd}{mode}"
             shutil.rmtree(d, ignore_errors=True)
             d.mkdir(parents=True)
@@ -541,6 +592,9 @@ def check_C17(tier: str, v: Verdict):
         # then a fresh session that resubmits everything
         for sc in C17_SCENARIOS + SIBLING_SCENARIOS[:1]:
             base = _run_history((sc, [{"policy": ("seq",), "kill_at": None}], str(root / "probe"), "uninterrupted"))
+            if base.get("job_timeout"):
+                JOB_TIMEOUTS.append(base)
+                continue
             results.append(base)
             n = base["nevents"]
             points = list(range(0, n + 1))
@@ -578,6 +632,11 @@ def check_C17(tier: str, v: Verdict):
         jobs.append((FOREIGN_SCENARIO, [{"policy": ("seq",), "kill_at": None}, {"policy": ("seq",), "kill_at": None}], str(root / "foreign"), "foreign-header"))
         results += run_histories(jobs)
         validate_histories(v, results, "C17")
+        # one process that creates an aggregator on the same output file again and again (the earlier object
+        # dropped and garbage-collected, or kept alive) and resubmits the subjects; judged on the final file
+        st = stress_uncontrolled(v, "C17", root, 1 if tier == "quick" else 3, modes=("reopen", "reopen-keep"))
+        validate_obs_only(v, st, "C17")
+        v.cov["in_process_reopen_runs"] = len(st)
         v.cov["evaluations"] = len(results)
         v.cov["kill_points"] = len([r for r in results if r["tag"].startswith("kill-at")])
         v.cov["distinct_nontrivial"] = len({json.dumps([r["scn"]["name"], [(s["policy"], s.get("kill_at")) for s in r["sessions"]]]) for r in results
